@@ -914,9 +914,10 @@ class FileStorage(
         with self._lock:
             pos = self._lookup_pos(oid)
             h = self._read_data_header(pos, oid)
-            if h.plen == 0 and h.back == 0:
-                # Undone creation
-                raise POSKeyError(oid)
+            if h.plen == 0:
+                # Undone creation, or a back pointer that may ultimately
+                # resolve to one: raises POSKeyError like load() does.
+                self._loadBack_impl(oid, h.back)
             return h.tid
 
     def _transactionalUndoRecord(self, oid, pos, tid, pre):
